@@ -193,10 +193,17 @@ def m3(ctx, rep):
     pg = [c for c in f['calls'] if c.get('f') == 'post_generation']
     rep.check(len(pg) == 1 and not [x for x in pg[0]['guard'] if x.get('k') == 'for'], 'M3', 'post-generation-after-loop', 'post_generation once, after all files', 'post_generation is not called exactly once after the loop', site)
     # collector keyed by the file's own crate name (closure inside parallel_parse)
-    pp = ctx.fn('parallel_parse', file='cli/src/parse.rs')
+    pp = ctx.fnx('parallel_parse', file='cli/src/parse.rs')
     ent = [c for c in pp['calls'] if c.get('f') == 'entry']
-    ok = bool(ent) and re.search(r'\.crate_name(\.clone\(\))?$', vt.show(vt.strip(ent[0]['args'][0])) + ('' if True else '')) is not None and 'result' in vt.show(ent[0]['args'][0])
-    rep.check(ok, 'M3', 'collector:key', 'results keyed by parsed_data.crate_name', f"the collector files results under `{vt.show(ent[0]['args'][0])[:60] if ent else '?'}`", {'file': pp['file'], 'line': pp['line']})
+    folds = [a for a in pp['assigns'] if a.get('op') == '+=']
+    ok = False
+    shown = '?'
+    if ent and folds:
+        keyv = vt.strip(ent[0]['args'][0])
+        shown = vt.show(keyv)
+        # the key is the crate_name of the very value that is merged under it
+        ok = any(vt.is_field_of(keyv, a['value'], 'crate_name') for a in folds)
+    rep.check(ok, 'M3', 'collector:key', 'results keyed by parsed_data.crate_name', f"the collector files results under `{shown[:60]}`, not under the crate name of the result being merged", {'file': pp['file'], 'line': pp['line']})
 
 
 def m4(ctx, rep):
